@@ -12,7 +12,9 @@
 (*   Plan, WriteHeader, Take(w), WriteRow(w)                               *)
 (***************************************************************************)
 EXTENDS Naturals, Sequences, FiniteSets
-CONSTANTS CfgSet    \* configurations explored: [n, kc, dl, hdr, ksz, nw]
+CONSTANTS LegacyPlan,  \* FALSE: the repaired size rule. TRUE: the pinned tree's rule kc * (NumLen + 1), which ignores the
+                       \* delimiter length (finding F6) - kept only to show that InBounds / Tiling detect it at design level
+          CfgSet    \* configurations explored: [n, kc, dl, hdr, ksz, nw]
                     \*   n records, kc columns, delimiter length dl, header on/off,
                     \*   k (letters per column name), nw workers
 VARIABLES cfg, phase, cap, reader, pc, held, writes, sched
@@ -36,7 +38,7 @@ Reset(c) ==
 
 \* statistics pass + mmap_file_for_writing(size): truncate and set the length
 Plan == /\ phase = "plan"
-        /\ cap' = cfg.n * RowLen + HdrLen
+        /\ cap' = cfg.n * (IF LegacyPlan THEN cfg.kc * (NumLen + 1) ELSE RowLen) + HdrLen
         /\ phase' = "hdr"
         /\ UNCHANGED <<cfg, reader, pc, held, writes, sched>>
 
